@@ -116,7 +116,10 @@ def lookupD (l : List (Nat × Nat)) (k : Nat) : Nat := (l.lookup k).getD 0
 def addTo (l : List (Nat × Nat)) (k v : Nat) : List (Nat × Nat) :=
   if l.any (·.1 == k) then l.map (fun p => if p.1 == k then (p.1, p.2 + v) else p) else l ++ [(k, v)]
 
-def insertSet (l : List Nat) (k : Nat) : List Nat := if l.contains k then l else l ++ [k]
+/-- `SortedVecSet::insert`: the set is kept in ascending order (it is iterated in that order) -/
+def insertSet : List Nat → Nat → List Nat
+  | [], k => [k]
+  | x :: xs, k => if k < x then k :: x :: xs else if k = x then x :: xs else x :: insertSet xs k
 
 def SlotState.isNf (st : SlotState) (h : Nat) : Bool := st.cNf.any (·.hash == h)
 
